@@ -20,6 +20,7 @@ import (
 	"dsim/simrt"
 )
 
+var DebugSched = os.Getenv("DSIM_DEBUG_SCHED") != ""
 var DebugPayload = os.Getenv("DSIM_DEBUG_PAYLOAD") != ""
 
 // Heartbeat is bumped by the driver around every wait for quiescence; the
@@ -231,6 +232,13 @@ func (w *World) Next(actions []Action) bool {
 	synctest.Wait()
 	Heartbeat.Add(1)
 	en := w.Sched.EnabledG()
+	if DebugSched && len(en) > 0 {
+		d := ""
+		for _, g := range en {
+			d += g.ID + "@" + g.Site + " "
+		}
+		w.Logf("  sched %s| parked=%v", d, w.Sched.ParkedDesc())
+	}
 	if len(en) == 0 && len(actions) == 0 {
 		return false
 	}
@@ -271,6 +279,10 @@ func (w *World) Next(actions []Action) bool {
 		return true
 	}
 	g := w.pickG(en)
+	g.SelRot = 0
+	if strings.HasPrefix(g.Site, "sel:") {
+		g.SelRot = w.Ch.Intn(2, "selrot")
+	}
 	w.Sched.Release(g)
 	return true
 }
@@ -496,6 +508,8 @@ type Write struct {
 	DecErr  error
 	key     string
 	RealT   string // the id the server really used (B and D carry the canonical one)
+	Parked  bool // WriteTo has not returned yet (released by World.ReleaseWrite)
+	parkCh  chan struct{}
 	Failed  bool // the write returned an error (fault)
 	Short   bool
 }
@@ -514,6 +528,9 @@ type SimConn struct {
 	out    []*Write
 	nw     int
 	Fault  WriteFault
+	// Park decides whether the i-th write blocks inside WriteTo until the driver
+	// releases it (the datagram is on the wire, the call has not returned).
+	Park func(i int, b []byte, to net.Addr) bool
 	// WritesAfterClose counts writes attempted after Close.
 	WritesAfterClose int
 	IsClosed         bool
@@ -563,11 +580,27 @@ func (c *SimConn) WriteTo(b []byte, to net.Addr) (int, error) {
 			n = len(b) / 2
 		}
 	}
+	park := c.Park != nil && err == nil && c.Park(wr.Idx, b, to)
+	if park {
+		wr.Parked = true
+		wr.parkCh = make(chan struct{})
+	}
 	c.mu.Lock()
 	c.out = append(c.out, wr)
 	c.mu.Unlock()
 	c.W.Wake()
+	if park {
+		<-wr.parkCh
+	}
 	return n, err
+}
+
+// ReleaseWrite lets a parked WriteTo return.
+func (w *World) ReleaseWrite(wr *Write) {
+	if wr.Parked {
+		wr.Parked = false
+		close(wr.parkCh)
+	}
 }
 
 func (c *SimConn) Close() error {
